@@ -462,6 +462,8 @@ def list_append(I, pl, v, node):
 
 
 def lift_as(v, ety, node=None):
+    if isinstance(v, Obj) and getattr(v, 'term', None) is not None:
+        return v.term
     if isinstance(ety, tuple) and ety[0] == 'obj':
         t = getattr(v, 'term', None)
         if t is None:
@@ -1129,7 +1131,7 @@ def m_len(I, args, kwargs, node):
         if m is not None:
             return I.call(BoundMethod(m, v), [], {}, node)
         raise _raise(TypeError)
-    if is_concrete(v):
+    if isinstance(v, tuple) or is_concrete(v):
         return len(v)
     raise _oos('len of %r' % (v,), node)
 
@@ -1429,6 +1431,20 @@ def m_min(I, args, kwargs, node):
 @model(max)
 def m_max(I, args, kwargs, node):
     return _minmax(I, args, kwargs, node, True)
+
+
+@model(functools.reduce)
+def m_reduce(I, args, kwargs, node):
+    fn, seq = args[0], concrete_items(I, args[1], node)
+    if len(args) > 2:
+        acc = args[2]
+    elif seq:
+        acc, seq = seq[0], seq[1:]
+    else:
+        raise _raise(TypeError)
+    for x in seq:
+        acc = I.call(fn, [acc, x], {}, node)
+    return acc
 
 
 @model(callable)
